@@ -38,6 +38,7 @@ type sdocument struct {
 	sels  []*snode
 	text  string
 	tkeys map[string]bool
+	head  string // what precedes the operation's selection set ("" for a query, "subscription")
 }
 
 type sdocGen struct {
@@ -159,7 +160,11 @@ func (doc *sdocument) render() {
 			}
 		}
 	}
-	emit("{")
+	if doc.head != "" {
+		emit(doc.head + " {")
+	} else {
+		emit("{")
+	}
 	sels(doc.sels)
 	emit("}")
 	for _, f := range doc.frags {
@@ -230,4 +235,26 @@ func (o *observation) tree(tkeys map[string]bool) sexp.Node {
 		return sexp.T("tree", sexp.Sym("no-data"))
 	}
 	return sexp.T("tree", treeSexp(*o.data, tkeys, ""))
+}
+
+// hand-written subscriptions over the apifu schema with subscriptions (apifu.go): the two fields
+// tick (ungated) and betaTick (gated by fa), with fragments
+func subscriptionDocs() []*sdocument {
+	fld := func(key, name string, sub ...*snode) *snode { return &snode{kind: 'f', key: key, name: name, sub: sub} }
+	tn := func(key string) *snode { return &snode{kind: 't', key: key} }
+	inl := func(tc string, sub ...*snode) *snode { return &snode{kind: 'i', tc: tc, sub: sub} }
+	spr := func(name string) *snode { return &snode{kind: 's', name: name} }
+	docs := []*sdocument{
+		{sels: []*snode{fld("a", "tick", fld("b", "id"), fld("c", "n"))}},
+		{sels: []*snode{fld("a", "betaTick", fld("b", "id"))}},
+		{sels: []*snode{fld("a", "tick", tn("t"), inl("Thing", fld("b", "n")), inl("Node", fld("c", "id")))}},
+		{sels: []*snode{fld("a", "betaTick", spr("T"))}, frags: []*sfrag{{name: "T", tc: "Thing", sels: []*snode{fld("b", "id"), fld("c", "n")}}}},
+		{sels: []*snode{inl("Subscription", fld("a", "betaTick", fld("b", "n")))}},
+	}
+	for _, d := range docs {
+		d.head = "subscription"
+		d.tkeys = map[string]bool{}
+		d.render()
+	}
+	return docs
 }
